@@ -61,7 +61,7 @@ def main(argv):
         ran.append(f"pytest with patch: {len(passed)} passed, baseline tests not passing: {missing}")
         d1 = sh(f"cd {base} && {env} /venv/bin/python {demo}")
         ran.append(f"patched tree: demo exit {d1.returncode}: {(d1.stdout + d1.stderr).strip()[-300:]}")
-        diff = sh(f"git -C {wt} diff").stdout
+        diff = sh(f"git -C {wt} diff HEAD").stdout
         sh(f"git -C {wt} checkout -- . && git -C {wt} reset -q --hard")
         d2 = sh(f"cd {base} && {env} /venv/bin/python {demo}")
         ran.append(f"reverted: demo exit {d2.returncode}")
